@@ -31,10 +31,11 @@ type slot = { kind : char; parent : int; name : ostring; mutable bound : bool; m
               mutable linked : bool (* some link may have pointed to it at some time *) }
 (* [ss]: the session of coq/Store/DbSession.v (the file, the open mode, the deleted-but-open objects); [st] is its file *)
 type world = { mutable ss : sess; beh : behaviour; mutable tbl : slot array; mutable n : int;
-               ord_of_oid : (int, int) OHashtbl.t; mutable last_dump : ostring }
+               ord_of_oid : (int, int) OHashtbl.t; mutable last_dump : ostring;
+               mutable quiet : bool (* blind build: the implementation driver observes nothing, so no dump / digest is printed *) }
 
-let new_world beh = { ss = init_sess; beh = beh; tbl = [||]; n = 0; ord_of_oid = OHashtbl.create 64; last_dump = "" }
-let reset_world w = w.ss <- init_sess; w.tbl <- [||]; w.n <- 0; OHashtbl.reset w.ord_of_oid
+let new_world beh = { ss = init_sess; beh = beh; tbl = [||]; n = 0; ord_of_oid = OHashtbl.create 64; last_dump = ""; quiet = false }
+let reset_world w = w.quiet <- false; w.ss <- init_sess; w.tbl <- [||]; w.n <- 0; OHashtbl.reset w.ord_of_oid
 
 let slot_of w k = if k < 0 || k >= w.n then None else Some w.tbl.(k)
 let is_bound w k = match slot_of w k with Some s -> s.bound | None -> false
@@ -637,7 +638,13 @@ let tail_of before now = OPrintf.sprintf " t=%d h=%08x" (if before = now then 0 
 let answer w toks : ostring =
   match toks with
   | ["new"] -> reset_world w; w.last_dump <- dump w; "OK -" ^ tail_of w.last_dump w.last_dump
+  | ["quiet"; x] -> w.quiet <- (x = "on"); "OK -"
+  | ["hobs"; o] ->
+    (* a handle is an object identity and carries no state (observe_file_only): the entity seen through the kept handle is
+       the entity of the dump *)
+    (try ignore (recv w (oint_of_string o) "BSRADTMGPX"); "OK same=1 diff=-" with Refuse what -> "ERR " ^ what)
   | "reopen" :: rest ->
+    w.quiet <- false;
     let kind = (match rest with [] -> "rw" | k :: _ -> k) in
     ignore (run_sop w SClose);
     if kind = "other" || kind = "otherw" then begin
@@ -692,12 +699,13 @@ let answer w toks : ostring =
              | _ -> ())
        done
      | _ -> ());
+    if w.quiet then head ^ " q" else begin
     let before = w.last_dump in
     w.last_dump <- dump w;
     let head = (match toks with
         | ("del" | "delh") :: _ when head = "OK 1" && !mode_ = "C04" -> head ^ delete_report w before w.last_dump was_alive
         | _ -> head) in
-    head ^ tail_of before w.last_dump
+    head ^ tail_of before w.last_dump end
 
 let cur = new_world current_behaviour
 let rep = new_world repaired
@@ -723,7 +731,8 @@ let run_hist (mode : ostring) =
     let spec = (match toks with
         | "reopen" :: _ -> if mode = "C02" then b else "ANY"
         | ("del" | "delh") :: _ when mode = "C04" -> if is_err b then "ANY" else b
-        | ("lsf" | "llsf" | "dimsf" | "posq" | "colq") :: _ -> if is_err b then "ANY" else strip_tail b
+        | ("lsf" | "llsf" | "dimsf" | "posq" | "colq" | "hobs") :: _ -> if is_err b then "ANY" else strip_tail b
+        | "quiet" :: _ -> "ANY"
         | ("new" | "observe" | "uuid") :: _ -> "ANY"
         | ["chk"; ptok; kt] ->
           if mode = "C03" then (try "OK " ^ chk_spec rep ptok kt.[0] with Refuse what -> "ERR " ^ what | Failure _ -> "ANY") else "ANY"
